@@ -15,13 +15,13 @@ from ..own import Ownership
 from ..symx import Expander, TupleV, ref_eval
 from ..anf import R
 from .. import anf
-from .common import struct_ob, formula_ob, guard, last_return, U
+from .common import default_instance_obligations, struct_ob, formula_ob, guard, last_return, U
 from .C03 import ownership_obligations
 from ..report import AnalysisError
 
 ACQ = "inference/gp/acquisition.py"
 OPT = "inference/gp/optimisation.py"
-FLOORS = {"value-form": 4, "objective-siblings": 5, "gradient-is-derivative": 4, "bounds-passed": 3,
+FLOORS = {"components-not-shared": 1, "value-form": 4, "objective-siblings": 5, "gradient-is-derivative": 4, "bounds-passed": 3,
           "ownership": 5, "refit-order": 2,
           "tail-guard": 3}
 
@@ -223,6 +223,8 @@ def run(prog, tier):
     obs.append(struct_ob("refit-order", qual(ac, ug), body_txt == [f"self.gp = {g}", f"self.mu_max = {g}.y.max()"],
                          f"update_gp must install the regressor and set the incumbent to the maximum of its data: {body_txt}",
                          ACQ, ug.lineno))
+
+    obs.extend(default_instance_obligations(prog, "components-not-shared", [('GpOptimiser', '__init__')]))
 
     meta = {
         "explanation": "Each acquisition method is expanded (both arms of the Z < -3 switch) to a normal form over mu, sigma and "
